@@ -190,7 +190,7 @@ def check_operators(model, R):
             continue
         s, o = m.pos_params[0], m.pos_params[1]
         env = {}
-        for n in m.node.body:
+        for n in body_walk(m.node):
             if isinstance(n, ast.Assign) and isinstance(n.targets[0], ast.Name) and n.targets[0].id == o:
                 # other = other if isinstance(other, Tensor) else Tensor(other, ...)   (scalar wrapping keeps the operand)
                 t = tree(n.value, model, m.mod, cls=tcls)
